@@ -1414,8 +1414,8 @@ string_value :
 int_value : 
     token_number {
         n, err := strconv.ParseInt($1, 10, 32)
-        if err != nil || n < 0 {
-            yylex.Error(fmt.Sprintf("not a valid number for min elements %s", $1))
+        if err != nil {
+            yylex.Error(fmt.Sprintf("not a valid number %s", $1))
             goto ret1
         }       
         $$ = int(n)
@@ -1423,8 +1423,8 @@ int_value :
     | token_string {
         s := trimQuotes($1)
         n, err := strconv.ParseInt(s, 10, 32)
-        if err != nil || n < 0 {
-            yylex.Error(fmt.Sprintf("not a valid number for min elements %s", $1))
+        if err != nil {
+            yylex.Error(fmt.Sprintf("not a valid number %s", $1))
             goto ret1
         }       
         $$ = int(n)        
